@@ -30,7 +30,7 @@ func runC19(p *core.Program, r *core.Report) {
 		}
 		a5Check(r, "A5", f, nonEmptyGroupTactic)
 	}
-	c19R1(p, r, split)
+	c19R1(p, r, flatten(p, split))
 	c19R2(p, r)
 }
 
